@@ -91,13 +91,20 @@ func (ce *cer) load(dir string) {
 		ce.lockRaw[j] = raw
 		hx.Must(json.Unmarshal(raw, &ce.locks[j]))
 		_, ce.lockErr[j] = cluster.LoadClusterLock(context.Background(), path.Join(d, "cluster-lock.json"), false, eth1)
-		ce.sk[j], err = dkg.LoadSecrets(path.Join(d, "validator_keys"))
-		if err != nil {
-			ce.sk[j] = nil
-		}
-		kf, err := keystore.LoadFilesUnordered(path.Join(d, "validator_keys"))
-		if err == nil && len(kf) != len(ce.sk[j]) {
-			ce.sk[j] = nil
+		if j < len(ce.kms) { // keymanager mode: the node's shares are what its keymanager accepted
+			ce.sk[j], _, err = ce.kms[j].secrets()
+			if err != nil {
+				ce.sk[j] = nil
+			}
+		} else {
+			ce.sk[j], err = dkg.LoadSecrets(path.Join(d, "validator_keys"))
+			if err != nil {
+				ce.sk[j] = nil
+			}
+			kf, err := keystore.LoadFilesUnordered(path.Join(d, "validator_keys"))
+			if err == nil && len(kf) != len(ce.sk[j]) {
+				ce.sk[j] = nil
+			}
 		}
 		ce.files[j], _ = deposit.ReadDepositDataFiles(d)
 	}
@@ -425,4 +432,48 @@ func (ce *cer) expectNodeSigs() string {
 		out = append(out, fmt.Sprintf("N%d", i))
 	}
 	return strings.Join(out, ",")
+}
+
+// kmMonitors: keymanager mode, after every attempt's outcome (success or failure): a node on which Run
+// returned nil must have its shares stored SOMEWHERE; what a keymanager accepted must be exactly that
+// node's shares in lock order.
+func (ce *cer) kmMonitors(run *hx.Run, dir string) {
+	for j, k := range ce.kms {
+		d := path.Join(dir, fmt.Sprintf("node%d", j))
+		onDisk := false
+		if kf, err := keystore.LoadFilesUnordered(path.Join(d, "validator_keys")); err == nil && len(kf) > 0 {
+			onDisk = true
+		}
+		secrets, pubs, err := k.secrets()
+		imported := err == nil && len(secrets) == ce.c.nv
+		if j < len(ce.errs) && ce.errs[j] == nil && !imported && !onDisk {
+			k.mu.Lock()
+			reqs := k.requests
+			k.mu.Unlock()
+			run.Violate("dkgrun:success_without_stored_shares", fmt.Sprintf("node %d: dkg.Run returned nil, but its keymanager (mode %c, %d requests) accepted no import of its %d key shares and there are no keystores on disk", j, k.mode, reqs, ce.c.nv))
+		}
+		if err != nil {
+			continue
+		}
+		raw, rerr := os.ReadFile(path.Join(d, "cluster-lock.json"))
+		var lock cluster.Lock
+		if rerr != nil || json.Unmarshal(raw, &lock) != nil {
+			continue // the node did not get as far as writing its lock
+		}
+		bad := ""
+		if len(secrets) != len(lock.Validators) {
+			bad = fmt.Sprintf("%d keystores for %d validators", len(secrets), len(lock.Validators))
+		}
+		for i := 0; bad == "" && i < len(secrets); i++ {
+			p, err := tbls.SecretToPublicKey(secrets[i])
+			if err != nil || j >= len(lock.Validators[i].PubShares) || !bytes.Equal(p[:], lock.Validators[i].PubShares[j]) {
+				bad = fmt.Sprintf("keystore %d is not the secret of public share %d of lock validator %d", i, j, i)
+			} else if strings.TrimPrefix(pubs[i], "0x") != hex.EncodeToString(p[:]) {
+				bad = fmt.Sprintf("keystore %d names public key %s", i, pubs[i])
+			}
+		}
+		if bad != "" {
+			run.Violate("dkgrun:keymanager_received_wrong_shares", fmt.Sprintf("node %d: %s", j, bad))
+		}
+	}
 }
